@@ -334,7 +334,7 @@ class PredictEval:
                 return ("range", self.ev(c.args[0]))
             if len(c.args) == 2 and self.ev(c.args[0]) == ("const", 0):
                 return ("range", self.ev(c.args[1]))
-            if len(c.args) == 2 and self.ev(c.args[0])[0] == "const" and self.ev(c.args[1]) == NROWS:
+            if len(c.args) == 2 and isinstance(const(c.args[0]), int) and self.ev(c.args[1]) == NROWS:
                 self.row_problem = "rows are decoded over range(%s): not every instance gets a prediction" % ", ".join(
                     astq.canon(a) for a in c.args)
                 return ("range", NROWS)
